@@ -12,6 +12,10 @@ Lemma gen_covers_fields :
   forallb (fun t => perm_eqb (visited gen_spec t) (node_fields gen_spec t)) (seq 0 (ntypes gen_spec)) = true.
 Proof. vm_compute. reflexivity. Qed.
 
+(* no arm ranges over a wrapper list by value (that would hand the visitor addresses of copies) *)
+Lemma gen_copy_free : copy_free gen_spec = true.
+Proof. vm_compute. reflexivity. Qed.
+
 (* every pointer field is walked under a nil guard, every struct field by address, every arm exists *)
 Lemma gen_arms_normal :
   forallb (fun t => forallb (visit_ok gen_spec t) (visits_of gen_spec t) &&
@@ -87,29 +91,19 @@ Qed.
 
 Lemma walk_identity_proof v0 t e :
   In e (fst (walk_p gen_spec V enter v0 t)) ->
-  (exists c, subtree_at t (e_path e) = Some c /\ tree_ty c = e_ty e) /\
-  ((by_value gen_spec (e_ty e) = false /\ (e_fl e = Orig \/ e_fl e = Copy)) \/
-   (by_value gen_spec (e_ty e) = true /\ e_fl e = ByVal)).
+  exists c, subtree_at t (e_path e) = Some c /\ tree_ty c = e_ty e.
 Proof.
-  intros H. rewrite walk_no_panic_proof in H. cbn [fst] in H. split.
-  - apply pwalk_identity in H. destruct H as [q [c [E1 [E2 E3]]]]. cbn [app] in E1. rewrite E1. now exists c.
-  - eapply pwalk_flavours; [|exact H]. now left.
+  intros H. rewrite walk_no_panic_proof in H. cbn [fst] in H.
+  apply pwalk_identity in H. destruct H as [q [c [E1 [E2 E3]]]]. cbn [app] in E1. rewrite E1. now exists c.
 Qed.
 
-Lemma walk_copies_only_in_class_elements_proof v0 t e :
-  well_typed gen_spec t = true ->
-  In e (fst (walk_p gen_spec V enter v0 t)) -> e_fl e = Copy ->
-  exists q c, subtree_at t q = Some c /\ tree_ty c = T_ClassElement /\ prefix q (e_path e).
+Lemma walk_hands_over_tree_addresses_proof v0 t e :
+  In e (fst (walk_p gen_spec V enter v0 t)) ->
+  (by_value gen_spec (e_ty e) = false /\ e_fl e = Orig) \/
+  (by_value gen_spec (e_ty e) = true /\ e_fl e = ByVal).
 Proof.
-  intros WT H CP. destruct (well_typed_parts t WT) as [W F]. rewrite walk_no_panic_proof in H. cbn [fst] in H.
-  destruct (pwalk_copy_origin gen_spec gen_covers V enter t false [] v0 [] Orig e W F H CP) as [X|[q [c [S1 [S2 S3]]]]];
-    [discriminate|].
-  exists q, c. split; [exact S1|]. split; [|exact S3].
-  (* ClassElement is the only wrapper type of the generated schema *)
-  unfold is_wrapper in S2. cbn [gen_spec sp_wrapper] in S2.
-  assert (L : forall n, nth n gen_wrapper false = true -> n = T_ClassElement).
-  { intros n. do 61 (destruct n as [|n]; [cbn; try discriminate; reflexivity|]). cbn. destruct n; discriminate. }
-  now apply L.
+  intros H. rewrite walk_no_panic_proof in H. cbn [fst] in H.
+  eapply pwalk_orig; [exact gen_copy_free|exact H].
 Qed.
 
 End Gen.
@@ -184,14 +178,29 @@ Example ex_class_stop_prunes :
   length (nodes_not_below_stopped (fun p => match p with [(2, 0); (2, 0)] => true | _ => false end) ex_class) = 10.
 Proof. vm_compute. reflexivity. Qed.
 
-(* the finding: the Field of a class element is handed over as the address of a copy *)
-Lemma walk_hands_over_copies_witness :
-  exists t e, well_typed gen_spec t = true /\ In e (fst (walk_p gen_spec nat descend_all 0 t)) /\
-              e_k e = KEnter /\ e_ty e = T_Field /\ e_fl e = Copy.
-Proof.
-  exists ex_class, (Ev KEnter 1 [(F_ClassDecl_List, 0); (F_ClassElement_Field, 0)] T_Field Copy).
-  vm_compute. repeat split. right. right. right. now left.
-Qed.
+(* the Field of a class element is handed over by its address in the tree (it was a copy before fix 3931a8d) *)
+Example ex_class_field_by_address :
+  In (Ev KEnter 1 [(F_ClassDecl_List, 0); (F_ClassElement_Field, 0)] T_Field Orig)
+     (fst (walk_p gen_spec nat descend_all 0 ex_class)).
+Proof. vm_compute. right. right. right. now left. Qed.
+
+(* the table of the code before that fix (by-value range over ClassDecl.List) is not copy free, and the
+   same tree then yields the address of a copy: a revert is caught by gen_copy_free *)
+Definition legacy_spec : spec :=
+  mkSpec gen_schema gen_wrapper gen_alts
+         (map (fun arm => match arm with
+                          | Some vs => Some (map (fun vi => match vi with
+                                                            | V1 SLoopWrapAddr f => V1 SLoopWrap f
+                                                            | _ => vi end) vs)
+                          | None => None end) gen_table).
+
+Example legacy_not_copy_free : copy_free legacy_spec = false.
+Proof. vm_compute. reflexivity. Qed.
+
+Example legacy_hands_over_copy :
+  In (Ev KEnter 1 [(F_ClassDecl_List, 0); (F_ClassElement_Field, 0)] T_Field Copy)
+     (fst (walk_p legacy_spec nat descend_all 0 ex_class)).
+Proof. vm_compute. right. right. right. now left. Qed.
 
 Example ex_class_trace_length : length (fst (walk_p gen_spec nat descend_all 0 ex_class)) = 26.
 Proof. vm_compute. reflexivity. Qed.
